@@ -617,6 +617,106 @@ def edge_texts():
     return out
 
 
+# ---------------------------------------------------------------------------------------------------
+# ljmo / vjmo / tjmo end to end: fonts from tools/fontbuild.py whose three features are single substitutions
+# mapping every jamo glyph to a role-specific glyph (base + J, + 2J, + 3J), so the glyph id out of shape() shows
+# which feature (if any) was applied to which glyph.
+
+ALL_JAMO = (list(range(0x1100, 0x1200)) + list(range(0xA960, 0xA97D)) + list(range(0xD7B0, 0xD7C7))
+            + list(range(0xD7CB, 0xD7FC)))
+NJ = len(ALL_JAMO)
+GSUB_FONTS = {
+    "g-nosyl": (lambda s: False, False),
+    "g-all": (lambda s: True, False),
+    "g-mix3": (lambda s: (s - S_BASE) % 3 == 0, False),
+    "g-lvonly-zt": (lambda s: (s - S_BASE) % T_COUNT == 0, True),
+}
+
+
+class GsubFont:
+    def __init__(self, name):
+        import fontbuild
+        syl, zero_tone = GSUB_FONTS[name]
+        cmap = {}; g = 1
+        for c in ALL_JAMO:
+            cmap[c] = g; g += 1
+        g = 1 + 4 * NJ
+        for c in list(range(0x41, 0x5B)) + [DOTTED] + list(TONES):
+            cmap[c] = g; g += 1
+        for c in range(S_BASE, S_BASE + S_COUNT):
+            if syl(c):
+                cmap[c] = g; g += 1
+        adv = [600] * g
+        if zero_tone:
+            for t in TONES: adv[cmap[t]] = 0
+        rec = {"num_glyphs": g, "cmap": cmap, "advances": adv,
+               "gsub": {"features": [{"tag": "ljmo", "lookups": [0]}, {"tag": "vjmo", "lookups": [1]},
+                                     {"tag": "tjmo", "lookups": [2]}],
+                        "lookups": [{"type": 1, "flag": 0, "subtables": [
+                            {"format": 1, "coverage": {"ranges": [(1, NJ)]}, "delta": k * NJ}]} for k in (1, 2, 3)]}}
+        self.name = name
+        self.hex = fontbuild.build(rec).hex()
+        self.cmap = cmap
+        self.zero_tone = zero_tone
+
+    def has(self, u): return u in self.cmap
+    def zero(self, u): return self.zero_tone and u in TONES
+    def gid(self, u): return self.cmap.get(u, 0)
+
+    def glyph(self, cp, tag):
+        """what shape() must put out for code point `cp` carrying feature `tag`."""
+        g = self.cmap.get(cp, 0)
+        return g + tag * NJ if (tag and 1 <= g <= NJ) else g
+
+
+def gsub_search(ctx, shim, texts, fonts, levels=(0,)):
+    fs = [GsubFont(f) for f in fonts]
+    reg = [f"font {f.name} {f.hex}" for f in fs]
+    groups, metas = [], []
+    per = max(200, (len(texts) + vlib.NPROC - 1) // vlib.NPROC)     # few groups: the registration lines are big
+    for k in range(0, len(texts), per):
+        lines = list(reg); m = []
+        for cps, nodc in texts[k:k + per]:
+            if any(c in OTHER_MARKS for c in cps): continue
+            for f in fs:
+                for level in levels:
+                    lines.append(shape_line(f.name, level, 16 if nodc else 0, cps, list(range(len(cps)))))
+                    m.append((f, cps, nodc, level))
+        groups.append(lines); metas.append(m)
+    outs = vlib.run_groups(shim, groups, timeout=900)
+    reported = ctx.__dict__.setdefault("_c12_reported", set())
+    total = 0; dist = {"ljmo": 0, "vjmo": 0, "tjmo": 0, "untagged-texts": 0}
+    for lines, m, o in zip(groups, metas, outs):
+        for ln, (f, cps, nodc, level), out in zip(lines[len(reg):], m, o[len(reg):]):
+            total += 1
+            want = spec_render(cps, f, nodc)
+            wg = [f.glyph(c, t) for c, t in want]
+            tags = [t for _, t in want]
+            for t, nm in ((1, "ljmo"), (2, "vjmo"), (3, "tjmo")):
+                dist[nm] += tags.count(t)
+            if not any(tags): dist["untagged-texts"] += 1
+            got = parse_shape(out)
+            bad = None
+            if got is None: bad = f"reply {out[:80]}"
+            elif [g for g, _ in got] != wg:
+                bad = f"glyphs {[g for g, _ in got]} expected {wg} = {[(hex(c), t) for c, t in want]} (jamo glyph + {NJ}*feature)"
+            if bad:
+                fnd = "hangul-LV-T-without-LV-glyph" if text_in_finding_class(cps, f.has) else None
+                kk = "violating" + (":" + fnd if fnd else "")
+                dist[kk] = dist.get(kk, 0) + 1
+                key2 = fnd if fnd else ("gsub", f.name)
+                if key2 in reported: continue
+                reported.add(key2)
+                rp = {"stage": "search", "stream": "gsub-features", "font": f.name, "gsub_font": f.name, "via": "shape()",
+                      "request": ln, "observed": out, "text": fmt(cps)}
+                if fnd: rp["finding"] = fnd
+                ctx.violation(f"text {fmt(cps)} on GSUB font '{f.name}' level {level} via shape(): {bad}", rp)
+    ctx.note_search("gsub-features", total, total, distribution=dist,
+                    rule="shape() on fontbuild fonts whose ljmo/vjmo/tjmo lookups map each jamo glyph g to g+J / g+2J / "
+                         "g+3J: the output glyph ids must be those of spec_render's (code point, feature) sequence; "
+                         "distribution counts the features expected over all requests")
+
+
 def tone_search(ctx, shim, r, n):
     """tone marks after valid syllables / alone, zero-width or spacing, with and without dotted circle."""
     lines, meta = [], []
@@ -725,6 +825,11 @@ def run(ctx):
     rt = [(rand_text(rr), 1 if rr.chance(1, 6) else 0) for _ in range(ctx.budget(4000, 120000))]
     whole_text_search(ctx, shim, "random-texts", rt, ["all", "nosyl", "mix3", "all-zt", "nosyl-zt", "all-nodc"],
                       levels=(0,) if ctx.quick else (0, 1, 2))
+    gt = [(c, 0) for _, c in enum_cases(ctx.budget(64, 4), ctx.seed % ctx.budget(64, 4))]
+    gt += [(c, 0) for _, c in old_cases(ctx.rng("gold"), ctx.budget(100, 3000))]
+    gt += [([0x41] + c + [0x42], 0) for _, c in enum_cases(ctx.budget(256, 16), ctx.seed % 16)]
+    gt += rt[:ctx.budget(1500, 40000)]
+    gsub_search(ctx, shim, gt, list(GSUB_FONTS), levels=(0,) if ctx.quick else (0, 1, 2))
     if ctx.broken and any(v[2] for v in ctx.violations):
         # vlib.finish only reports a broken proof / correspondence when no failing input was found at all;
         # a standing finding must not hide it
@@ -737,6 +842,8 @@ def replay(ctx, rp):
     shim = vlib.build_harness()
     if rp.get("stage") == "search":
         lines = ([rp["register"]] if "register" in rp else []) + [rp["request"]]
+        if "gsub_font" in rp:
+            lines = [f"font {rp['gsub_font']} {GsubFont(rp['gsub_font']).hex}"] + lines
         o = vlib.run_groups(shim, [lines], nproc=1)[0]
         print("request :", rp["request"][:300])
         print("observed:", o[-1])
